@@ -44,6 +44,24 @@ PLAN = [
 ]
 
 
+# fields (keywords of the text state) of each family's objects that must be exercised as run-time data by every run
+STATE_FIELDS = {
+    "restraint": ["firstStep", "stage", "centers", "forceConstant", "accumulatedWork", "restraintFE", "x"],
+    "histogram": ["grid"],
+    "extlag": ["extended_x", "extended_v"],
+    "abmd": ["refValue"],
+    "abf": ["samples", "gradient"],
+    "eabf": ["samples", "gradient", "z_samples", "z_gradient", "extended_x", "extended_v"],
+    "meta": ["hill", "numHills"],
+    "alb": ["setCoupling", "currentCoupling", "maxCouplingRange", "couplingRate", "couplingAccum", "mean", "ssd", "updateCalls",
+            "b_equilibration", "forceCoupling"],
+    "opes": ["counter", "zed", "sum_weights", "sum_weights2", "num_hills", "hills"],
+    "pabf": ["samples", "gradient", "pmf"],
+    "ti": ["histogram", "system_forces"],
+    "runave": ["runAveWindow"],
+}
+
+
 def signature(c, f):
     """finding -> signature: kind, family with its distinguishing tags[, observable, when].
     Families / features whose state handling is recorded as a known finding are collapsed to
@@ -171,6 +189,20 @@ def run_all(run, exe, model_exe, cases, d):
         if len(run.cov["samples"]) < 4 and c["fam"] in ("restraint", "meta", "abf", "extlag"):
             run.sample({"family": c["fam"], "tags": c["tags"], "config": c["config"], "it0": c.get("it0", 0),
                         "history_z": c["pos"][:6], "stop_steps": c["Ks"][:6], "formats": c["fmts"]})
+    # every field of a state must be run-time data in at least one generated history: differ, at some stop step,
+    # from what a job that only read the configuration (and starts at a later step) would write
+    changed = {}
+    for c in cases:
+        changed.setdefault(c["fam"], set()).update(c.get("_state_changed", []))
+    for fam, req in STATE_FIELDS.items():
+        if fam in changed:
+            run.cov.setdefault("state_fields_exercised", {})[fam] = sorted(changed[fam] & set(req))
+            for key in req:
+                if key not in changed[fam]:
+                    run.violation("coverage:%s:state-field-never-differs:%s" % (fam, key),
+                                  "no generated %s history makes the state field `%s` differ, at any stop step, from the value the configuration "
+                                  "alone gives: a reader that ignores the field would go unnoticed" % (fam, key),
+                                  {"kind": "coverage", "family": fam, "field": key})
     return nsteps, nfind, ntie
 
 
